@@ -12,6 +12,7 @@ from hypothesis import strategies as st
 from ..core import HERE, Clause, HarnessError, Violation
 
 META = {
+    "thorough_scale": 3,
     "level": "exploration",
     "rule": (
         "Engine A (clause schedules): utils._tty_lock / _rlock_type / mp_RLock are replaced by instrumented "
